@@ -30,6 +30,29 @@ class WatchdogExpired(BaseException):
     """virtual-time watchdog: a blocking driver call exceeded its budget"""
 
 
+class Hang(Exception):
+    """what guard() turns an expired watchdog into: harness code that records `type(e).__name__` of any exception a call
+    raises then records "Hang" - a call that never returns is an observation, never a hanging check"""
+
+
+class guard:
+    """with guard(sched, budget_ns): <call into the code under test>   (single-thread mode)"""
+
+    def __init__(self, s, budget_ns=5_000_000_000):
+        self.s, self.budget = s, int(budget_ns)
+
+    def __enter__(self):
+        self.prev = self.s.deadline
+        self.s.deadline = self.s.now + self.budget
+        return self
+
+    def __exit__(self, et, ev, tb):
+        self.s.deadline = self.prev
+        if et is WatchdogExpired:
+            raise Hang("no return within %d ms of virtual time" % (self.budget // 1_000_000)) from None
+        return False
+
+
 class Sched:
     """module-like replacement for `time` in the repo modules + conservative discrete-event scheduler.
 
